@@ -385,7 +385,9 @@ pub fn check_c14(tier: Tier) -> Report {
         }
     };
     ev.stats.evaluations = constants + terms + q;
-    for i in 0..nontrivial.min(1_000_000) {
+    // the measured count (kept as a set by the evidence writer; capped to bound memory,
+    // the uncapped number is in `neighbour_terms_differing_by_order_or_nesting`)
+    for i in 0..nontrivial.min(8_000_000) {
         ev.stats.nontrivial.insert(i);
     }
     ev.extra.insert("type_constants_compared".into(), serde_json::json!(constants));
